@@ -7,14 +7,14 @@ import conncommon
 
 def slim_run(r, around=None):
     evs = r["events"]
-    d = {"scenario": r["scenario"], "params": r["params"], "calls": r["calls"], "accepts": r.get("accepts"),
+    d = {"scenario": r["scenario"], "params": r["params"], "calls": r["calls"] or [], "accepts": r.get("accepts"),
          "all_returned": r.get("all_returned"), "closer_returned": r.get("closer_returned"), "n_events": len(evs)}
     keep = [e for e in evs if e["p"] not in ("reader.msg", "frame.enq", "exec.take", "write.locked", "deadline.reset", "loop.incoming", "nw.acquired")]
     d["events_excerpt"] = ["%d %s %s %s" % (e["seq"], e["c"], e["p"], json.dumps(e["a"])) for e in keep[:60]]
     return d
 
 
-def run_conn(res, whiches, prop_filter=None, timeout=900):
+def run_conn(res, whiches, prop_filter=None, timeout=900, with_responder=False):
     okb, blog, exe = vlib.build_harness()
     if not okb:
         res.failed_obligations.append(("harness does not build against /repo", blog))
@@ -39,6 +39,13 @@ def run_conn(res, whiches, prop_filter=None, timeout=900):
         res.mismatches.append({"family": "conn/" + r["scenario"], "params": r["params"], "diag": diag_txt.get(d, d), "at_event": i,
                                "events_around": evs[max(0, i - 8):i + 3],
                                "note": "the recorded trace is not a behaviour of Conn.step (variant repaired_c)"})
+    if with_responder:
+        rbad, ritems = conncommon.validate_responder(res, ws_runs, res.prop)
+        rtxt = {1: "event not enabled in the responder model", 2: "the connection ended but the trace never reaches the all-cancelled state"}
+        for r, d, i, evs in rbad:
+            res.mismatches.append({"family": "conn/" + r["scenario"], "params": r["params"], "diag": rtxt.get(d, d), "at_event": i,
+                                   "events_around": evs[max(0, i - 8):i + 3], "note": "the recorded trace is not a behaviour of Resp.rstep"})
+        res.add_cov(responder_traces_validated=len(ritems) - len(rbad), responder_events=sum(len(e) for _, e in ritems))
     hist = collections.Counter()
     nev = 0
     for r, evs, outs in items:
@@ -46,7 +53,7 @@ def run_conn(res, whiches, prop_filter=None, timeout=900):
         nev += len(evs)
         for e in evs:
             hist["ev_" + e.split()[0]] += 1
-        for c in r["calls"]:
+        for c in r["calls"] or []:
             hist["outcome_" + c["outcome"].split(":")[0]] += 1
     distinct = len({json.dumps([e for e in evs], sort_keys=True) for _, evs, _ in items if len(evs) > 6})
     res.add_cov(evaluations=len(runs), distinct_nontrivial=distinct, traces_validated_against_impl=len(runs) - len(bad),
